@@ -518,7 +518,19 @@ fn cuts_job(base: Base, seed: u64) -> JobKind {
             variants.push((i, r.below(5) as u8));
         }
     }
-    JobKind::Cuts { base, cuts, variants }
+    // longest prefixes first, each seam preceded once by the complete file (variant code + 100 =
+    // warm-up): whatever a load of the longer version leaves behind must not complete a shorter one
+    variants.reverse();
+    let mut with_warmup = Vec::with_capacity(variants.len() + 5);
+    let mut warmed = [false; 5];
+    for (i, v) in variants {
+        if !warmed[v as usize] {
+            warmed[v as usize] = true;
+            with_warmup.push((usize::MAX, v + 100));
+        }
+        with_warmup.push((i, v));
+    }
+    JobKind::Cuts { base, cuts, variants: with_warmup }
 }
 
 fn special_items(ctx: &Ctx, prop: &str) -> Vec<(String, usize)> {
@@ -688,13 +700,21 @@ impl Job {
                     let (ci, v) = variants[sub as usize - cuts.len()];
                     (ci, Some(v))
                 };
-                let c = cuts[ci];
-                p.edits.push(Edit {
-                    label: format!("crash-prefix: only [0,{}) of {} durable", c, base.map.end),
-                    off: c,
-                    del: base.bytes.len(),
-                    ins: vec![],
-                });
+                let (variant, warmup) = match variant {
+                    Some(v) if v >= 100 => (Some(v - 100), true),
+                    v => (v, false),
+                };
+                let c = if warmup { base.bytes.len() } else { cuts[ci] };
+                if warmup {
+                    p.note = "warmup".into();
+                } else {
+                    p.edits.push(Edit {
+                        label: format!("crash-prefix: only [0,{}) of {} durable", c, base.map.end),
+                        off: c,
+                        del: base.bytes.len(),
+                        ins: vec![],
+                    });
+                }
                 match variant {
                     None => p.wrapper = Wrapper::Slice,
                     Some(0) => {
